@@ -219,6 +219,7 @@ func (c *XAConn) createNewTxOnExecIfNeed(ctx context.Context, f func() (types.Ex
 			if err := c.Rollback(ctx); err != nil {
 				log.Errorf("xa connection proxy rollback failure xid:%s, err:%v", c.txCtx.XID, err)
 			}
+			return nil, err
 		}
 	}
 
@@ -332,18 +333,29 @@ func (c *XAConn) Commit(ctx context.Context) error {
 	}
 
 	now := time.Now()
-	if c.end(ctx, xa.TMSuccess) != nil {
-		return c.commitErrorHandle(ctx)
+	if err := c.end(ctx, xa.TMSuccess); err != nil {
+		// the branch may still be active, where XA ROLLBACK is not allowed: end it as failed first
+		_ = c.xaResource.End(ctx, c.xaBranchXid.String(), xa.TMFail)
+		return c.commitFailure(ctx, err)
 	}
 
 	if c.checkTimeout(ctx, now) != nil {
 		return c.commitErrorHandle(ctx)
 	}
 
-	if c.xaResource.XAPrepare(ctx, c.xaBranchXid.String()) != nil {
-		return c.commitErrorHandle(ctx)
+	if err := c.xaResource.XAPrepare(ctx, c.xaBranchXid.String()); err != nil {
+		return c.commitFailure(ctx, err)
 	}
 	return nil
+}
+
+// commitFailure rolls the branch back after a failed XA END / XA PREPARE and always
+// hands the failure to the caller, also when the compensating XA ROLLBACK worked.
+func (c *XAConn) commitFailure(ctx context.Context, cause error) error {
+	if err := c.commitErrorHandle(ctx); err != nil {
+		return err
+	}
+	return fmt.Errorf("failed to end or prepare xa branch xid:%s, the branch is rolled back, err:%w", c.txCtx.XID, cause)
 }
 
 func (c *XAConn) commitErrorHandle(ctx context.Context) error {
